@@ -19,10 +19,31 @@ def histories(rng, tier):
         focus = rng.sample(range(c.ncov), min(c.ncov, rng.randint(2, 5)))
         h = [c.line(), 'state %s' % c.name]
         for _ in range(rng.randint(3, 14)):
-            if rng.random() < 0.1:
+            r = rng.random()
+            if r < 0.1:
                 h.append(gen.bad_upd_line(rng, c))
+            elif r < 0.3:
+                h.append(gen.updr_line(rng, c, focus=focus))         # half-open pixel ranges, both paths
+            elif r < 0.38:
+                a = rng.randrange(c.npix)
+                b = rng.randint(a, min(c.npix, a + rng.choice([1, 5, 3 * c.nfine + 1])))
+                if rng.random() < 0.2:
+                    h.append("set %s slice=%d:%d:%d none=1" % (c.name, a, b, rng.choice([1, 1, 2, 3])))
+                else:
+                    h.append("set %s slice=%d:%d:%d val=%s" % (c.name, a, b, rng.choice([1, 1, 2, 3]), c.val(rng)))
             else:
-                h.append(gen.upd_line(rng, c, focus=focus))
+                ln = gen.upd_line(rng, c, focus=focus)
+                if ' op=replace' in ln and 'none=1' not in ln and 'pix=_' not in ln and rng.random() < 0.4:
+                    via = rng.choice(['setitem_arr', 'setitem_list', 'setitem_int'])
+                    if via == 'setitem_int':
+                        toks = ln.split()
+                        one = [t for t in toks if t.startswith('pix=')][0].split(',')[0]
+                        vtok = [t for t in toks if t.startswith('val=') or t.startswith('vals=')][0]
+                        v1 = vtok.split('=', 1)[1].split(',')[0]
+                        ln = ' '.join([t for t in toks if not t.startswith(('pix=', 'val=', 'vals='))] +
+                                      [one, 'val=' + v1])
+                    ln += ' via=' + via
+                h.append(ln)
             h.append('state %s' % c.name)
             if rng.random() < 0.3:
                 h.append(gen.read_line(rng, c))
@@ -34,6 +55,6 @@ def nontrivial(h):
     ops = set()
     for ln in h:
         t = ln.split()
-        if t[0] == 'upd':
+        if t[0] in ('upd', 'updr', 'set'):
             ops.add(next((x for x in t if x.startswith('op=')), 'op=replace') + ('none' if 'none=1' in t else ''))
     return len(ops) >= 2
